@@ -63,6 +63,16 @@ Section Vec3.
      exactly representable and exactly produced by fofZ / one division in the float instance). *)
   Definition dbl_min : F := f1 o / fofZ o (2 ^ 1022)%Z.
   Definition dbl_max : F := fofZ o ((2 ^ 53 - 1) * 2 ^ 971)%Z.
+  (* the same two constants without big-integer arithmetic at run time (the extracted model evaluates them on every call):
+     2^n by repeated squaring in F -- exact in doubles (powers of two below 2^1024), equal to fofZ (2^n) over R *)
+  Fixpoint fpow2 (n : positive) : F :=
+    match n with
+    | xH => fofZ o 2
+    | xO p => let h := fpow2 p in h * h
+    | xI p => let h := fpow2 p in fofZ o 2 * (h * h)
+    end.
+  Definition dbl_min_fast : F := f1 o / fpow2 1022.
+  Definition dbl_max_fast : F := fofZ o (2 ^ 53 - 1)%Z * fpow2 971.
   Definition fisnormal (x : F) : bool :=
-    andb (fleb o dbl_min (fabs o x)) (fleb o (fabs o x) dbl_max).
+    andb (fleb o dbl_min_fast (fabs o x)) (fleb o (fabs o x) dbl_max_fast).
 End Vec3.
